@@ -2,6 +2,7 @@
 (outside /repo and /verif) and run scripts produced from solver models."""
 import fcntl
 import os
+import re
 import shutil
 import subprocess
 import time
@@ -49,6 +50,13 @@ def build(profile='dev'):
         exe = os.path.join(tgt, 'release' if profile == 'release' else 'debug', 'cuke-replay')
         # copy the binary so that a later rebuild for another tree does not swap it under us
         out = os.path.join(CACHE, 'cuke-replay-%s-%d' % (profile, os.getpid()))
+        for fn in os.listdir(CACHE):          # copies left behind by runs that were killed
+            mm = re.match(r'cuke-replay-\w+-(\d+)$', fn)
+            if mm and not os.path.exists('/proc/%s' % mm.group(1)):
+                try:
+                    os.remove(os.path.join(CACHE, fn))
+                except OSError:
+                    pass
         shutil.copy(exe, out)
         _built[profile] = out
         return out
